@@ -534,6 +534,7 @@ class GCodeCore(object):
 
         point, params, comment = self._process_move_params(point, **kwargs)
         move, target_axes = self._transform_move(point)
+        self._validate_move(target_axes, params)
         statement, params = self._prepare_rapid(move, params, comment)
         self._update_axes(target_axes, params)
         self.write(statement)
@@ -560,6 +561,7 @@ class GCodeCore(object):
 
         point, params, comment = self._process_move_params(point, **kwargs)
         move, target_axes = self._transform_move(point)
+        self._validate_move(target_axes, params)
         statement, params = self._prepare_move(move, params, comment)
         self._update_axes(target_axes, params)
         self.write(statement)
@@ -586,6 +588,7 @@ class GCodeCore(object):
 
         move, params, comment = self._process_move_params(point, **kwargs)
         target_axes = self._current_axes.replace(*move)
+        self._validate_move(target_axes, params)
 
         with self.absolute_mode():
             statement, params = self._prepare_rapid(move, params, comment)
@@ -614,6 +617,7 @@ class GCodeCore(object):
 
         move, params, comment = self._process_move_params(point, **kwargs)
         target_axes = self._current_axes.replace(*move)
+        self._validate_move(target_axes, params)
 
         with self.absolute_mode():
             statement, params = self._prepare_move(move, params, comment)
@@ -861,6 +865,25 @@ class GCodeCore(object):
         move = point.combine(origin, target, move)
 
         return move, target_axes
+
+    def _validate_move(self, axes: Point, params: ParamsDict) -> None:
+        """Validate a movement before anything is written or tracked.
+
+        Called with the absolute target position and the parameters
+        of a move before the statement is generated. Subclasses can
+        override this method to reject a move by raising an exception,
+        the default implementation only checks that all the numeric
+        parameters can be formatted.
+
+        Args:
+            axes: The new position of all axes
+            params: The movement parameters used in the command
+
+        Raises:
+            ValueError: If the move is not valid
+        """
+
+        self.format.parameters(params)
 
     def _update_axes(self, axes: Point, params: ParamsDict) -> None:
         """Update the internal state after a movement.
